@@ -66,7 +66,7 @@ func main() {
 		"error messages are compared by class (resolver/directive text, non-null violation, panic), paths exactly",
 	}
 	seed := ev.Seed()
-	nOps := ev.Pick(60, 400)
+	nOps := ev.Pick(60, 1500)
 	nPlans := ev.Pick(4, 6)
 	only := os.Getenv("VERIF_PROBE")
 	replay := os.Getenv("VERIF_REPLAY")
